@@ -567,7 +567,7 @@ class _Linalg:
             from .bigsum import SumExpr
             if isinstance(t, SumExpr):
                 raise OutOfReach("norm over a symbolic-extent axis")
-            tt = arr.t_z3(t, True)
+            tt = z3.simplify(arr.t_z3(t, True), som=True, sort_sums=True)    # canonical polynomial form: equal radicands become one term
             r = SQRT(tt)
             ax = z3.Implies(tt >= 0, z3.And(r * r == tt, r >= 0))     # instance of the axiom defining sqrt
             if not any(ax.eq(p_) for p_ in sym.CTX.path):
@@ -956,7 +956,7 @@ def install():
     jax = _mod("jax", numpy=jnp, lax=lax, tree_util=tu, random=rnd, nn=nn,
                typing=_mod("jax.typing", ArrayLike=object), jit=_ident_decorator, vmap=vmap,
                Array=SArray, Device=object, devices=lambda: DEVICES[0])
-    eqnn = _mod("equinox.nn", State=object, Identity=lambda *a, **k: (lambda x, *r, **kk: x), GroupNorm=_Any("eqx.nn.GroupNorm"),
+    eqnn = _mod("equinox.nn", State=object, Identity=lambda *a, **k: (lambda x, *r, **kk: x), GroupNorm=GroupNormModel,
                 BatchNorm=_Any("eqx.nn.BatchNorm"), Conv=_Any("eqx.nn.Conv"), ConvTranspose=_Any("eqx.nn.ConvTranspose"),
                 inference_mode=lambda m, value=True: m)
 
@@ -1061,3 +1061,90 @@ def loop_shape(fn, expect_assigned):
     if names != set(expect_assigned):
         return f"loop assigns {sorted(names)}, contract expects {sorted(expect_assigned)}"
     return None
+
+
+# ------------------------------------------------------------------------------------------------
+# statistics registry: symbolic sums that must enter non-linear arithmetic (variance, division by a norm)
+# are named by a real symbol; two sums proved equal (up to sign) by the BigSum rules share the symbol
+
+STATS = []
+
+
+def opaque_stat(S, name="stat"):
+    from .bigsum import SumExpr, sum_equal
+    if not isinstance(S, SumExpr):
+        return S
+    for (sy, S0) in STATS:
+        st, _, _ = sum_equal(S, S0)
+        if st == "proved":
+            return sy
+        st, _, _ = sum_equal(S, S0.scale(-1))
+        if st == "proved":
+            return -sy
+    sy = z3.Real(sym.fresh_name(name))
+    STATS.append((sy, S))
+    return sy
+
+
+class GroupNormModel(Module):
+    """contract model of equinox.nn.GroupNorm: per group, mean and (biased) variance over (channels of the group, all
+    trailing axes); out = (x - mean) / sqrt(var + eps) * weight[c] + bias[c]"""
+
+    def __init__(self, groups, channels=None, eps=1e-5, channelwise_affine=True, **kw):
+        used("equinox.nn.GroupNorm (formula contract: group mean / variance, per-channel weight and bias)")
+        self.groups, self.channels, self.eps, self.channelwise_affine = groups, channels, eps, channelwise_affine
+        self.weight = arr.source(sym.fresh_name("gn_w"), [Atom(channels)]) if channelwise_affine else None
+        self.bias = arr.source(sym.fresh_name("gn_b"), [Atom(channels)]) if channelwise_affine else None
+
+    def __call__(self, x, state=None, *, key=None):
+        from .bigsum import bigsum
+        x = lift(x)
+        G = concrete_int(self.groups)
+        if G is None:
+            raise OutOfReach("GroupNorm with a symbolic number of groups")
+        ch = x.shape[0]
+        y = x.reshape((G, sym.int_floordiv(ch, G)) + tuple(x.shape[1:]))
+        n = 1
+        for e in y.shape[1:]:
+            n = n * e
+        means, invs = [], []
+        for gi in range(G):
+            red = y.dims[1:]
+            S1 = bigsum(red, lambda v, gi=gi: y.elem([gi] + list(v)))
+            S2 = bigsum(red, lambda v, gi=gi: arr.t_bin("mul", y.elem([gi] + list(v)), y.elem([gi] + list(v))))
+            m = arr.t_bin("div", opaque_stat(S1, "sum"), arr.t_norm(n))
+            q = arr.t_bin("div", opaque_stat(S2, "sumsq"), arr.t_norm(n))
+            var = arr.t_z3(arr.t_bin("sub", q, arr.t_bin("mul", m, m)), True)
+            ve = var + zr(self.eps)
+            r = SQRT(ve)
+            ax = z3.Implies(ve >= 0, z3.And(r * r == ve, r >= 0))
+            if not any(ax.eq(p_) for p_ in sym.CTX.path):
+                sym.CTX.path.append(ax)
+            # variance + eps > 0 (variance >= 0, eps > 0): assumed here as in the library (jnp.maximum(0, var))
+            pos = ve > 0
+            if not any(pos.eq(p_) for p_ in sym.CTX.path):
+                sym.CTX.path.append(pos)
+                sym.CTX.trace.append("assumed: group variance + eps > 0")
+            means.append(m)
+            invs.append(r)
+        w, b = self.weight, self.bias
+
+        def elem(idx):
+            gi = idx[0]
+            if arr.is_z3(gi):
+                raise OutOfReach("symbolic group index")
+            v = arr.t_bin("div", arr.t_bin("sub", y.elem(idx), means[int(gi)]), invs[int(gi)])
+            return v
+
+        normed = SArray(y.dims, elem).reshape(tuple(x.shape))
+        if not self.channelwise_affine:
+            return normed if state is None else (normed, state)
+        nd = x.ndim
+
+        def elem2(idx):
+            c = idx[0]
+            cf = arr.to_flat(normed.dims[0], c)
+            return arr.t_bin("add", arr.t_bin("mul", w.elem([Flat(cf)]), normed.elem(idx)), b.elem([Flat(cf)]))
+
+        out = SArray(normed.dims, elem2)
+        return out if state is None else (out, state)
